@@ -57,6 +57,37 @@ Theorem C03_no_child_after_close : forall stmt start th md ls,
   forall ls', alive (run_labels s ls') = 0%nat /\ runt (run_labels s ls') = None.
 Proof. exact no_child_after_close. Qed.
 
+(** the broker is closed ONCE MORE, atomically with the return of the close that does
+    the work (`Imp.aclose`: pubsub.close() first, then possibly a wait for the run,
+    then the `close` trigger, then pubsub.close() again, still under the lock).  The
+    step that returns appends, newest first,
+      EvRet t CClose ROk :: EvPub PEndCont :: [EvPub (PCont false)]? ++ EvPub PEndAll :: older
+    so no broker publication (PState, PRunInfo, PRunNo, PStatement) comes after that
+    PEndAll: only the `continuous` item, which is not a broker topic, is touched *)
+Theorem C03_return_closes_broker_again : forall stmt start th md ls l t r,
+  let s := run_labels (init_state stmt start th md) ls in
+  In (EvRet t CClose r) (appended s (step s l)) ->
+  nl_closed s = false \/ l = Step t ->
+  exists coff mid, (coff = [] \/ coff = [EvPub (PCont false)]) /\
+    trace (step s l) =
+    EvRet t CClose ROk :: EvPub PEndCont :: coff ++ EvPub PEndAll :: mid ++ trace s.
+Proof. exact close_return_shape. Qed.
+
+(** every subscription handed out earlier has been ended.  A subscription is modelled
+    as a point of the history: the trace prefix [pre] at which it was handed out --
+    ANY point up to the state the returning step starts from, in particular one that
+    lies after the first pubsub.close() of a close in progress (a `defaultdict` topic
+    re-created while close() waits for the run).  After that point and before the
+    return there is a PEndAll; the broker theorem C08_broker_close_ends_everything
+    says that a close-out ends every subscriber of every topic existing then *)
+Theorem C03_subscriptions_ended : forall stmt start th md ls l t r,
+  let s := run_labels (init_state stmt start th md) ls in
+  In (EvRet t CClose r) (appended s (step s l)) ->
+  nl_closed s = false \/ l = Step t ->
+  forall older pre, trace s = older ++ pre ->
+  exists post, trace (step s l) = EvRet t CClose ROk :: post ++ pre /\ In (EvPub PEndAll) post.
+Proof. exact subscriptions_ended. Qed.
+
 (** ---- B. progress ---- *)
 
 (** every label that is not a new API call and that changes the state decreases a
@@ -134,7 +165,11 @@ Example C03_example_nonvacuous :
   let s1 := step s (Step 1%nat) in
   let s2 := step s1 (Call 2%nat CClose) in
   find_task (tasks s) 1%nat = Some (CClose, C_G4) /\
-  appended s s1 = [EvPub PEndCont; EvRet 1%nat CClose ROk] /\
+  appended s s1 = [EvPub PEndAll; EvPub PEndCont; EvRet 1%nat CClose ROk] /\
+  (* the broker was closed twice: when close() took the lock, and with its return *)
+  filter (fun e => match e with EvPub PEndAll => true | _ => false end) (trace s1) =
+    [EvPub PEndAll; EvPub PEndAll] /\
+  filter (fun e => match e with EvPub PEndAll => true | _ => false end) (trace s) = [EvPub PEndAll] /\
   In (EvRet 1%nat CClose ROk) (appended s s1) /\
   closed_down s1 /\
   states_of (pubs_of (history s1)) = [Initialized; Running; Finished; Closed] /\
@@ -153,6 +188,8 @@ Proof. vm_compute. reflexivity. Qed.
 
 Print Assumptions C03_returns_closed.
 Print Assumptions C03_never_raises.
+Print Assumptions C03_return_closes_broker_again.
+Print Assumptions C03_subscriptions_ended.
 Print Assumptions C03_idempotent.
 Print Assumptions C03_no_child_after_close.
 Print Assumptions C03_measure.
